@@ -232,7 +232,7 @@ func runC12(c c12Case) vh.Result {
 	res.NonTrivial = cls != "between-elements" && cls != "boundary"
 	baseline := libGoroutines()
 	const interval = 15 * time.Millisecond
-	script := &peer.Script{Mechs: []string{"PLAIN"}, OfferSM: c.SM, SMId: "sm-c12", OfferTLS: c.TLS, TLS12: c.TLS12, Cert: "valid"}
+	script := &peer.Script{Mechs: []string{"PLAIN"}, OfferSM: c.SM, ExpectEnable: c.SM, SMId: "sm-c12", OfferTLS: c.TLS, TLS12: c.TLS12, Cert: "valid"}
 	if c.TLS {
 		res.Label("tls")
 	}
@@ -546,7 +546,7 @@ func runC12WS(c c12Case, res vh.Result, baseline map[string]string) vh.Result {
 	}
 	res.NonTrivial = nItems > 0
 	const interval = 15 * time.Millisecond
-	script := &peer.Script{Mechs: []string{"PLAIN"}, OfferSM: c.SM, SMId: "sm-c12"}
+	script := &peer.Script{Mechs: []string{"PLAIN"}, OfferSM: c.SM, ExpectEnable: c.SM, SMId: "sm-c12"}
 	failc := make(chan string, 1)
 	cutDone := make(chan struct{})
 	srv, err := peer.ListenWS("xmpp", func(wc *peer.WSConn) {
@@ -571,7 +571,16 @@ func runC12WS(c c12Case, res vh.Result, baseline map[string]string) vh.Result {
 		res.Fail("harness", "NewClient: %v", err)
 		return res
 	}
-	_ = cl.Connect() // Connect also reports a failed write of the initial presence when the peer is very fast
+	// Connect also reports a failed write of the initial presence when the peer is very fast. When it fails without
+	// having announced the session, the connection was lost while the client was still negotiating (on a loaded machine
+	// the server can answer the last request, send its messages and drop the connection before the client's last write
+	// has returned): the statement is about losses after the session is established, so that case says nothing.
+	if cerr := cl.Connect(); cerr != nil && rec.count(xmpp.StateSessionEstablished) == 0 {
+		res.Excluded = true
+		res.Label("lost-before-the-client-was-established")
+		go func() { _ = cl.Disconnect() }()
+		return res
+	}
 	select {
 	case <-cutDone:
 	case s := <-failc:
